@@ -47,13 +47,14 @@ PLANS = {
                     "parsed by the crate with 7 trailing byte strings; TLC checks WellFormed(m), bytes = EncMessage(m), every result = (m, Len(bytes)), rest = suffix.",
     ),
     "C02": dict(
-        sany=["DltCodec.tla", "mc/MCMutate.tla", "trace/TraceSlice.tla"],
+        sany=["DltCodec.tla", "mc/MCMutate.tla", "trace/TraceSlice.tla", "trace/TraceBuild.tla"],
         steps=[
             mc("mutate", "MCMutate", "MCMutate_quick.cfg", "MCMutate_thorough.cfg", replay=("slice", "verdict"), workers=12),
             mc("codec", "MCCodec", "MCCodec_quick.cfg", "MCCodec_thorough.cfg", replay=("slice", "enc")),
             mc("session", "MCSession", "MCSession_quick.cfg", "MCSession_thorough.cfg", replay=("slice", "session")),
             mc("junk", "MCJunk", "MCJunk_quick.cfg", "MCJunk_thorough.cfg", replay=("slice", "verdict", "verdict,search")),
             rec("slice", "mut", "TraceSlice", 1200, 30000, 3, 10),
+            rec("build", "layout", "TraceBuild", 1500, 40000, 1, 4),
         ],
         rule=SLICE_RULE,
         explanation="The specification IS the independent codec (written from the layout, encode and decode halves separately, reconciled by TLC). "
